@@ -43,6 +43,14 @@ CHECKS['C01'] = dict(
     note='trusted: TLC, Graphs/Sym/Stereo.tla, projection; molecules with allene marks skipped; domain predicate conservative (refinement classes)',
     technique='TLC trace validation of recorded (base, variant, bijection) triples + exhaustive labelled-graph enumeration with TLC-computed isomorphism keys',
     design='5/C01')
+CHECKS['C06'] = dict(
+    text='The reported ring set, ring count, components and the in-ring / ring-size marks are recorded for every labelled connected graph up '
+         'to the bound, corpus molecules and the repository ring file under renumbering and re-insertion, and generated fused / spiro / '
+         'bridged / macrocyclic assemblies; TLC evaluates the declarative definition (simple cycles, cyclomatic number, GF(2) independence, '
+         'minimum total size against its own Horton+greedy reference, size multiset under renumbering, marks, components).',
+    note='trusted: TLC, Rings.tla; minimality / size-multiset clauses waived (counted) where TLC finds the recorded gap: two candidate cycles no larger than the largest basis ring sharing >= 3 bonds, or a dense cage',
+    technique='TLC evaluation of a declarative cycle-basis specification over recorded ring perceptions (exhaustive small graphs)',
+    design='5/C06')
 PENDING = {}
 
 
